@@ -125,6 +125,29 @@ package util
 //@   requires t.getCtx != nil && t.intervalFunc != nil && t.callback != nil && t.expiredLocked != nil
 //@   fnparam getCtx ensures r0 != nil
 //@   fnparam callback requires a0.Err() == nil
+// the wait before call n+1 is interval(n+1): asked with the index of the call
+// it precedes, and the callback is told the index of this call
+// (the context getter and the interval function are assumed effect-free)
+//@   fnparam getCtx pure
+//@   fnparam intervalFunc pure
+//@   fnparam intervalFunc requires old(t.called) < 18446744073709551615 ==> a0 == old(t.called) + 1
+//@   fnparam callback requires a1 == old(t.called)
+
+// a timer that is removed or stopped gets its context cancelled (that is what
+// run's guard looks at), whether or not the caller supplied its own hook;
+// the caller's hook runs after the cancellation
+// tcancels: invocations of the context's cancel function
+//@ ghost tcancels int
+//@ func NewSimpleTimer$1
+//@   prop C34
+//@   requires cancel != nil
+//@   fnparam cancel counts tcancels
+//@   ensures [local-cancels] tcancels == old(tcancels) + 1
+//@ func NewSimpleTimer$2
+//@   prop C34
+//@   requires cancel != nil && whenRemoved != nil
+//@   fnparam cancel counts tcancels
+//@   fnparam whenRemoved requires tcancels == old(tcancels) + 1
 
 // a job handed to a worker runs once, later, on some goroutine: from the
 // submitter's point of view under an arbitrary state (A7)
